@@ -2,6 +2,8 @@
 //! canonical answers; the same request lines are fed to the Lean model/spec driver.
 mod gen;
 mod k_flat;
+mod k_forms;
+mod k_order;
 mod shrink;
 mod sym;
 
@@ -18,6 +20,9 @@ fn run_line(line: &str) -> String {
     let f: Vec<&str> = line.split('\t').collect();
     match f[0] {
         "flat" => k_flat::run(&f[1..]),
+        "forms" => k_forms::run(&f[1..]),
+        "order" => k_order::run_order(&f[1..]),
+        "track" => k_order::run_track(&f[1..]),
         _ => "BADKIND".into(),
     }
 }
@@ -41,6 +46,10 @@ fn main() {
             for i in 0..n {
                 let line = match kind {
                     "flat" => k_flat::gen(&mut rng, tier, i, &mut stats),
+                    "forms" => k_forms::gen(&mut rng, tier, i, &mut stats),
+                    "order" => k_order::gen(&mut rng, tier, i, &mut stats),
+                    "orderx" => k_order::gen_exhaustive(i),
+                    "track" => k_order::gen_track(&mut rng, tier, i, &mut stats),
                     _ => panic!("unknown kind"),
                 };
                 let ans = run_line(&line);
